@@ -36,7 +36,9 @@ TRUSTED = ["Model/C11_Model.v is hand-written; tied to boltons.setutils.IndexedS
            "harness/translators/{py2coq,c11_src}.py (Gen/C11_Src.v: _get_real_index and _get_apparent_index regenerated from "
            "the source each run; C11_source_real_index / C11_source_apparent_index prove them equal to the model's loops)",
            "harness/translators/c11_cull.py (Gen/C11_Cull.v: _cull regenerated from the source each run - branch order, "
-           "conditions, constants, both right-trim loops - and _add_dead; C11_source_cull / C11_source_add_dead prove them equal to the model)"]
+           "conditions, constants, both right-trim loops - and _add_dead; C11_source_cull / C11_source_add_dead prove them equal to the model)",
+           "harness/translators/c11_ops.py (Gen/C11_Ops.v: remove and pop regenerated from the source each run, calling the "
+           "regenerated _get_real_index/_add_dead/_cull; C11_source_remove / C11_source_pop prove them equal to the model)"]
 
 DG_MOD = 2305843009213693951
 BAD_TOK = 999999
@@ -51,7 +53,9 @@ def translators(repo):
     import c11_cull
     out = {"C11_Gen": c11_consts.render(repo)}
     out.update(c11_src.generate(repo))       # Gen/C11_Src.v: _get_real_index / _get_apparent_index from the source
-    out.update(c11_cull.generate(repo))      # Gen/C11_Cull.v: _cull from the source
+    out.update(c11_cull.generate(repo))      # Gen/C11_Cull.v: _cull and _add_dead from the source
+    import c11_ops
+    out.update(c11_ops.generate(repo))       # Gen/C11_Ops.v: remove and pop from the source
     return out
 
 
